@@ -256,6 +256,22 @@ def install(eng: Any) -> None:  # noqa: C901
             return value
         return default
 
+    class Suppress:
+        """contextlib.suppress(*exceptions): the with-body's matching exceptions are swallowed."""
+
+        def __init__(self, classes: Any) -> None:
+            self.classes = classes
+
+        def _pyvc_with(self, frame: Any, st: Any, i: int) -> None:
+            try:
+                frame.exec_with(st, i + 1)
+            except RaiseSignal as r:
+                if any(frame.exc_isinstance(r.exc, c) for c in self.classes):
+                    return
+                raise
+
+    X["contextlib.suppress"] = lambda e, *classes: Suppress(classes)
+
     X["os.getenv"] = os_getenv
     X["os.environ.get"] = os_getenv
 
@@ -535,6 +551,21 @@ def install(eng: Any) -> None:  # noqa: C901
         if isinstance(recv, str) and all(isinstance(x, (str, int)) for x in a):
             return recv.split(*a)
         return Opaque("split of symbolic string")
+
+    def m_insert(e: Any, recv: Any, i: Any, v: Any) -> Any:
+        if isinstance(recv, list) and isinstance(i, int):
+            recv.insert(i, v)
+            return None
+        raise OutsideSubset(".insert")
+
+    def m_clear(e: Any, recv: Any) -> Any:
+        if isinstance(recv, (list, dict, set)):
+            recv.clear()
+            return None
+        raise OutsideSubset(".clear")
+
+    X["method:insert"] = m_insert
+    X["method:clear"] = m_clear
 
     def m_index(e: Any, recv: Any, v: Any) -> Any:
         if isinstance(recv, (list, tuple)) and not is_sym(v):
